@@ -87,8 +87,53 @@ def extra(ctx, rng):
     return items
 
 
+def renaming_histories(ctx, rng, n):
+    """Two graph documents validated one after the other on ONE validator instance.  The second document reuses the
+    names of the first for other ids (and another edge set), all references spelled by alias or mixed: whatever the
+    validator remembers about the first document must not change which cycles it finds in the second."""
+    import checks.c13 as c13        # registers history_one in the worker pool
+    import impl
+    payloads, meta = [], []
+    for _ in range(n):
+        k = rng.choice([2, 3, 3, 4])
+        pairs = [(a, b) for a in range(k) for b in range(k)]
+        docs = []
+        perm = list(range(k))
+        rng.shuffle(perm)
+        info = []
+        for which in (0, 1):
+            edges = rng.sample(pairs, rng.randint(1, min(len(pairs), k + 2)))
+            enc = rng.choice(ENCODINGS)
+            s = graph_scenario(k, edges, enc, rng)
+            if S.has_duplicate_composite(s):
+                break
+            if which == 1:
+                for coll, off in (("actions", 400), ("promises", 300)):
+                    for e in s[coll]:
+                        if e["id"] < k:
+                            e["name"] = off + perm[e["id"]]
+            docs.append(S.render(s, random.Random(rng.randrange(1 << 30)), rng.choice(["alias", "mixed"]), rng.random() < 0.5, False))
+            info.append("%s n=%d edges=%s" % (enc, k, sorted(edges)))
+        if len(docs) < 2:
+            continue
+        payloads.append({"docs": docs, "calls": [(0, "json"), (1, rng.choice(["json", "dict"]))]})
+        meta.append(info + ["names permuted by %s" % perm])
+    pool = impl.Pool(ctx)
+    res = pool.call_many("history_one", payloads)
+    pool.close()
+    bad = 0
+    for pl, info, problems in zip(payloads, meta, res):
+        if problems and bad < 3:
+            bad += 1
+            ctx.violation({"what": "the verdict on a dependency graph depends on the document the same validator instance validated before",
+                           "first_then_second": info, "problems": problems, "documents": pl["docs"], "calls": pl["calls"]})
+    ctx.coverage["renaming_histories"] = {"pairs": len(payloads), "with_problem": sum(1 for r in res if r)}
+
+
 def run(ctx):
+    import checks.c13  # noqa: registers history_one before any pool is created
     scen_check.scenario_check(
         ctx, owners=("C02",), n_valid=40, n_mut=160, extra=extra,
         rule="every directed graph (cyclic or not, self loops included) over 1-3 actions and sampled graphs over 4-5 actions, each edge set rendered in the encodings flat / nested checkpoint references / shared checkpoints / implicit through thread-group membership, random declaration order and spelling; plus conformant random scenarios and cycle mutants (back edge through a new checkpoint, a nested reference or an added dependency; self dependency); distinct by (encoding, graph) or abstract scenario",
         trusted=["the set of encodings is chosen by the harness (import connections are covered by C16)"])
+    renaming_histories(ctx, random.Random(ctx.seed + 7), 150 if ctx.tier == "quick" else 1500)
